@@ -430,7 +430,17 @@ def run(case, faulted, sess):
         wired = True
     else:
         wired = False
+    cwd0 = os.getcwd()
     with env:
+      os.chdir(env.base)  # relative artefact paths of the engine (quality traces under ./logs) land in the private directory
+      try:
+        return _run_in_env(case, faulted, sess, env, rng, exc, hits, boot, late, late_base, fx_dir, wired)
+      finally:
+        os.chdir(cwd0)
+
+
+def _run_in_env(case, faulted, sess, env, rng, exc, hits, boot, late, late_base, fx_dir, wired):
+    if True:
         if boot:
             # the boot loader replaces state.graph; deliver preloaded GEL edges is not needed here
             if faulted and "boot-garbage" in case["sites"]:
